@@ -168,6 +168,8 @@ def run(tier, seed):
                     prop = "C16"
                 else:
                     prop = CLAUSE_PROP.get(clause, "C01")
+                    if clause in ("raised", "RaisedIffInjected", "unevaluable"):
+                        prop = "C01"      # nothing was injected: the real code blew up on a well-typed program
                     if clause in ("deliveries", "emissions") and st is not None and _diff_kind(exp, st) == "metadata":
                         prop = "C10"
                     if clause == "NodeContracts" and exp is None:
